@@ -98,6 +98,14 @@ func (in *objIndex) UnmarshalJSON(data []byte) error {
 	in.ObjectIds = tmp.ObjectIds
 	in.uuids = make(map[string]uint64)
 
+	// null in the file
+	if in.Fields == nil {
+		in.Fields = make(map[string]*fieldIndex)
+	}
+	if in.ObjectIds == nil {
+		in.ObjectIds = make(map[uint64]string)
+	}
+
 	// we search next index to use for object
 	for i, uuid := range in.ObjectIds {
 		if i > in.i {
